@@ -15,11 +15,13 @@
 **   raw63 raw64 raw65 raw72 raw100 raw127 raw128 raw129 raw200 raw300   big structs: first / last byte and
 **           the bytes on both sides of every 64-byte boundary varied (reduced grid, see vf_cmp.h)
 **
-** Parameters:  dom=all | comma list of int,float,string,type,recycled,reptuple,mixed,raw     grid=small|large
+** Parameters:  dom=all | comma list of int,float,string,type,recycled,reptuple,mixed,converted,raw     grid=small|large
 **              (rawall = every raw* domain, rawbig = raw63 .. raw300)
 **              recycled = run-time record types created, deleted and re-created with another size (vf_cmp.h)
 **              reptuple = Tuples referencing one object at several positions as left operand of container cmp
 **              mixed = values of different types (a refusal is fine, an answer must be an order)
+**              converted = Array/List/Table/Tree constructed with other element (key/value) types and then given their
+**                          contents by assign(), against directly built containers of the same contents (see run_converted)
 **              replay="<dom> pair i j" | "<dom> triple i j k" | "<dom> triples i j"
 **                     | "<dom> tree|table <order>"
 **
@@ -731,6 +733,319 @@ static void run_reptuple(void) {
     rt_shared[0], rt_shared[1], rt_shared[2], rt_shared[3], hangs);
 }
 
+/* ---- assign-converted containers -----------------------------------------------------------------
+**
+** An Array, List, Table or Tree takes over the element (key / value) type of the source of assign().  A container
+** that was CONSTRUCTED with other types (empty or already holding two elements) and then received its contents
+** through assign() must from then on compare exactly like a container built directly with the final types: whatever
+** the container remembered about its first element type (a comparison looked up at construction, a size, ...) is
+** stale.  Families by final element type F: Int, Float, String and Ver (a user type with its OWN Cmp - major, then
+** minor - that is also convertible to an integer, its major number, so a foreign Int comparison answers instead of
+** refusing).  First types T0: every other family and a 12-byte plain struct without Cmp.
+**
+**   sequences  contents = every sequence of length <= 2 (small) / <= 3 (large) over three ordered values of F
+**              operands  = per content: direct Array/List (pushed; constructed with arguments), direct Tuple (distinct
+**                          objects), and Array/List x T0 x {constructed empty, holding 2 T0-elements} x assigned from a
+**                          direct Array / List of F
+**              oracle    = ALL ordered pairs of operands: sign(cmp) == lexicographic reference (shorter is smaller),
+**                          cmp == 0 only for equal contents, the six predicates are the predicates of cmp, cmp(a,a) == 0,
+**                          antisymmetry on the observed matrix.  Agreement with the reference total preorder for
+**                          every pair is agreement of a converted container with the direct one of the same contents
+**                          against every third operand, and implies transitivity.
+**   maps       key type F, value type the next family; contents = every partial map from 2 (small) / 3 (large) ordered
+**              keys to 2 values; operands = direct Tree (ascending / descending insertion), direct Table, Tree/Table x
+**              (K0,V0) in {both other, only the key type other, only the value type other} x {empty, 2 entries} x
+**              assigned from a direct Tree / Table; every converted Table has a TWIN: a fresh Table<K,V> assigned
+**              from the same source (same slot layout).
+**              oracle    = pairs of order-defined operands (Trees; Tables with <= 1 entry - Table_Cmp walks in slot
+**                          order, the property does not list Table and D10 is the known consequence): as for sequences,
+**                          reference = lexicographic over (key, value) in key order.  Every pair: no exception, predicates
+**                          derive from cmp.  Every converted Table: cmp with its twin is 0 both ways and it gives the
+**                          same sign as its twin against and under every operand of the pool.
+** replay="converted <family> seq|map pair <i> <j>" rebuilds the pool (deterministic) and judges that pair.
+*/
+struct Ver { int64_t major, minor; };
+extern var Ver;
+static int64_t Ver_C_Int(var self) { return ((struct Ver*)self)->major; }
+static int Ver_Cmp(var self, var obj) {
+  struct Ver* x = self; struct Ver* y = cast(obj, Ver);
+  if (x->major != y->major) return x->major < y->major ? -1 : 1;
+  return x->minor < y->minor ? -1 : x->minor > y->minor ? 1 : 0;
+}
+var Ver = Cello(Ver, Instance(Cmp, Ver_Cmp), Instance(C_Int, Ver_C_Int));
+
+enum { CF_INT, CF_FLOAT, CF_STRING, CF_VER, CF_N, CF_RAW12 = CF_N };
+static const char* CFN[] = { "Int", "Float", "String", "Ver", "Raw12" };
+static const char* cf_valname[CF_N][3] = { { "-1", "2", "4294967298" }, { "1.5", "2.5", "2.75" }, { "\"ab\"", "\"abc\"", "\"b\"" }, { "v1.0", "v1.1", "v2.0" } };
+enum { CK_ARRAY, CK_LIST, CK_TUPLE, CK_TREE, CK_TABLE };
+static const char* CKN[] = { "array", "list", "tuple", "tree", "table" };
+enum { CR_DIRECT, CR_CONVERTED, CR_TWIN };
+
+static var cf_type(int fam) { return fam == CF_INT ? Int : fam == CF_FLOAT ? Float : fam == CF_STRING ? String : fam == CF_VER ? Ver : Raw12; }
+static var cf_new(int fam, int v) {
+  static const int64_t iv_[3] = { -1, 2, 4294967298LL };
+  static const double fv_[3] = { 1.5, 2.5, 2.75 };
+  static const char* sv_[3] = { "ab", "abc", "b" };
+  switch (fam) {
+  case CF_INT:    return new_raw(Int, $I(iv_[v]));
+  case CF_FLOAT:  return new_raw(Float, $F(fv_[v]));
+  case CF_STRING: return new_raw(String, $S((char*)sv_[v]));
+  case CF_VER:  { struct Ver* x = alloc_raw(Ver); x->major = v == 2 ? 2 : 1; x->minor = v == 1 ? 1 : 0; return x; }
+  default:      { struct Raw12* r = alloc_raw(Raw12); r->x = v; r->y = 7; r->z = -v; return r; }
+  }
+}
+static var cf_obj[CF_N + 1][3];        /* carriers: Array, List, Table and Tree copy what they are given */
+
+#define CV_MAXOPS 1600
+struct cv_op {
+  var c; int kind, role, content, twin;            /* twin: pool index of the twin of a converted Table, else -1 */
+  int n; int key[3], val[3];                       /* sequences: val[0..n); maps: entries in key order */
+  int defined;                                     /* its position in the order is fixed by the property */
+  char cls[40], desc[112];
+};
+static struct cv_op* cvo; static int ncvo;
+static signed char* CVS;                           /* observed sign matrix, MX_RAISED = the comparison raised */
+static int cv_fam; static const char* cv_part;
+static uint64_t cv_build_failures;
+
+static int cv_refsign(const struct cv_op* a, const struct cv_op* b, int is_map) {
+  for (int k = 0; k < a->n && k < b->n; k++) {
+    if (is_map && a->key[k] != b->key[k]) return a->key[k] < b->key[k] ? -1 : 1;
+    if (a->val[k] != b->val[k]) return a->val[k] < b->val[k] ? -1 : 1;
+  }
+  return a->n < b->n ? -1 : a->n > b->n ? 1 : 0;
+}
+
+static const char* CVL(const struct cv_op* a, const struct cv_op* b, const char* symptom) {
+  snprintf(lbl, sizeof lbl, "cmp/converted-%s/%s-vs-%s/%s", CFN[cv_fam], a->cls, b ? b->cls : "-", symptom);
+  return lbl;
+}
+
+static struct cv_op* cv_add(var c, int kind, int role, int content, int is_map, int n, const int* key, const int* val, int vfam, const char* cls, const char* how) {
+  if (ncvo >= CV_MAXOPS) { fprintf(stderr, "h_cmp: converted pool too large\n"); _exit(2); }
+  struct cv_op* o = &cvo[ncvo++];
+  memset(o, 0, sizeof *o);
+  o->c = c; o->kind = kind; o->role = role; o->content = content; o->twin = -1; o->n = n;
+  for (int k = 0; k < n; k++) { o->key[k] = key ? key[k] : k; o->val[k] = val[k]; }
+  o->defined = kind != CK_TABLE || n <= 1;
+  snprintf(o->cls, sizeof o->cls, "%s", cls);
+  size_t w = snprintf(o->desc, sizeof o->desc, "%s %s", how, is_map ? "{" : "[");
+  for (int k = 0; k < n && w + 32 < sizeof o->desc; k++) {
+    if (is_map) w += snprintf(o->desc + w, sizeof o->desc - w, "%s%s:%s", k ? "," : "", cf_valname[cv_fam][o->key[k]], cf_valname[vfam][o->val[k]]);
+    else w += snprintf(o->desc + w, sizeof o->desc - w, "%s%s", k ? "," : "", cf_valname[cv_fam][o->val[k]]);
+  }
+  snprintf(o->desc + w, sizeof o->desc - w, "%s", is_map ? "}" : "]");
+  return o;
+}
+
+static var cv_seq_direct(int kind, int fam, int n, const int* v, int with_args) {
+  var T = cf_type(fam);
+  if (kind == CK_TUPLE) { var t = new_raw(Tuple); for (int k = 0; k < n; k++) push(t, cf_new(fam, v[k])); return t; }
+  var K = kind == CK_ARRAY ? Array : List;
+  if (with_args) {
+    var* o = cf_obj[fam];
+    return n == 0 ? new_raw_with(K, tuple(T)) : n == 1 ? new_raw_with(K, tuple(T, o[v[0]])) : n == 2 ? new_raw_with(K, tuple(T, o[v[0]], o[v[1]])) : new_raw_with(K, tuple(T, o[v[0]], o[v[1]], o[v[2]]));
+  }
+  var x = new_raw_with(K, tuple(T));
+  for (int k = 0; k < n; k++) push(x, cf_obj[fam][v[k]]);
+  return x;
+}
+
+static volatile var cv_tmp, cv_tmp2;
+
+static void cv_build_failed(const char* what, var e) {
+  char kase[200]; snprintf(kase, sizeof kase, "converted %s %s build | %s", CFN[cv_fam], cv_part, what);
+  snprintf(lbl, sizeof lbl, "cmp/converted-%s/build/assign-raises", CFN[cv_fam]);
+  vf_violation(lbl, kase, "building the operand raised %s", vf_exc_name(e));
+  cv_build_failures++;
+}
+
+static void cv_build_seqs(int fam, int maxlen) {
+  ncvo = 0; cv_fam = fam; cv_part = "seq";
+  int content = 0;
+  for (int n = 0; n <= maxlen; n++) {
+    int cnt = 1; for (int k = 0; k < n; k++) cnt *= 3;
+    for (int c = 0; c < cnt; c++, content++) {
+      int v[3] = { 0, 0, 0 }; { int x = c; for (int k = n - 1; k >= 0; k--) { v[k] = x % 3; x /= 3; } }
+      char how[64];
+      for (int kind = CK_ARRAY; kind <= CK_TUPLE; kind++) {
+        snprintf(how, sizeof how, "%s<%s> pushed", CKN[kind], kind == CK_TUPLE ? "-" : CFN[fam]);
+        cv_add(cv_seq_direct(kind, fam, n, v, 0), kind, CR_DIRECT, content, 0, n, NULL, v, fam, CKN[kind], how);
+      }
+      for (int kind = CK_ARRAY; kind <= CK_LIST; kind++) {
+        snprintf(how, sizeof how, "new(%s,%s,...)", CKN[kind], CFN[fam]);
+        cv_add(cv_seq_direct(kind, fam, n, v, 1), kind, CR_DIRECT, content, 0, n, NULL, v, fam, CKN[kind], how);
+      }
+      for (int kind = CK_ARRAY; kind <= CK_LIST; kind++) for (int t0 = 0; t0 <= CF_RAW12; t0++) {
+        if (t0 == fam) continue;
+        for (int pre = 0; pre <= 2; pre += 2) for (int sk = CK_ARRAY; sk <= CK_LIST; sk++) {
+          char cls[40]; snprintf(cls, sizeof cls, "%s:=%s", CKN[kind], CFN[t0]);
+          snprintf(how, sizeof how, "%s<%s>[%d items] := %s<%s>", CKN[kind], CFN[t0], pre, CKN[sk], CFN[fam]);
+          var e = VF_CATCH({
+            cv_tmp = new_raw_with(kind == CK_ARRAY ? Array : List, tuple(cf_type(t0)));
+            for (int k = 0; k < pre; k++) push(cv_tmp, cf_obj[t0][(k + 1) % 3]);
+            cv_tmp2 = cv_seq_direct(sk, fam, n, v, 0);
+            assign(cv_tmp, cv_tmp2);
+            del_raw(cv_tmp2);
+          });
+          if (e) { cv_build_failed(how, e); continue; }
+          cv_add(cv_tmp, kind, CR_CONVERTED, content, 0, n, NULL, v, fam, cls, how);
+        }
+      }
+    }
+  }
+}
+
+static var cv_map_direct(int kind, int kf, int vf_, int n, const int* key, const int* val, int descending) {
+  var x = new_raw_with(kind == CK_TREE ? Tree : Table, tuple(cf_type(kf), cf_type(vf_)));
+  for (int q = 0; q < n; q++) { int k = descending ? n - 1 - q : q; set(x, cf_obj[kf][key[k]], cf_obj[vf_][val[k]]); }
+  return x;
+}
+
+static void cv_build_maps(int kf, int nkeys) {
+  ncvo = 0; cv_fam = kf; cv_part = "map";
+  int vf_ = (kf + 1) % CF_N;
+  int ncontents = 1; for (int k = 0; k < nkeys; k++) ncontents *= 3;
+  for (int c = 0; c < ncontents; c++) {
+    int key[3], val[3], n = 0;
+    { int x = c; for (int k = 0; k < nkeys; k++) { int d = x % 3; x /= 3; if (d) { key[n] = k; val[n] = d - 1; n++; } } }
+    char how[64];
+    for (int desc = 0; desc < 2; desc++) {
+      snprintf(how, sizeof how, "tree<%s,%s> set %s", CFN[kf], CFN[vf_], desc ? "descending" : "ascending");
+      cv_add(cv_map_direct(CK_TREE, kf, vf_, n, key, val, desc), CK_TREE, CR_DIRECT, c, 1, n, key, val, vf_, "tree", how);
+    }
+    snprintf(how, sizeof how, "table<%s,%s> set ascending", CFN[kf], CFN[vf_]);
+    cv_add(cv_map_direct(CK_TABLE, kf, vf_, n, key, val, 0), CK_TABLE, CR_DIRECT, c, 1, n, key, val, vf_, "table", how);
+    for (int kind = CK_TREE; kind <= CK_TABLE; kind++) for (int var_ = 0; var_ < 3; var_++) {
+      int k0 = var_ == 2 ? kf : (kf + 2) % CF_N, v0 = var_ == 1 ? vf_ : (vf_ + 2) % CF_N;      /* 0 both other, 1 only the key type, 2 only the value type */
+      for (int pre = 0; pre <= 2; pre += 2) for (int sk = CK_TREE; sk <= CK_TABLE; sk++) {
+        char cls[40]; snprintf(cls, sizeof cls, "%s:=%s,%s", CKN[kind], CFN[k0], CFN[v0]);
+        snprintf(how, sizeof how, "%s<%s,%s>[%d] := %s<%s,%s>", CKN[kind], CFN[k0], CFN[v0], pre, CKN[sk], CFN[kf], CFN[vf_]);
+        cv_tmp = NULL; cv_tmp2 = NULL;
+        volatile var twin = NULL;
+        var e = VF_CATCH({
+          cv_tmp = new_raw_with(kind == CK_TREE ? Tree : Table, tuple(cf_type(k0), cf_type(v0)));
+          if (pre) { set(cv_tmp, cf_obj[k0][0], cf_obj[v0][1]); set(cv_tmp, cf_obj[k0][2], cf_obj[v0][0]); }
+          cv_tmp2 = cv_map_direct(sk, kf, vf_, n, key, val, 0);
+          assign(cv_tmp, cv_tmp2);
+          if (kind == CK_TABLE) { twin = new_raw(Table, cf_type(kf), cf_type(vf_)); assign(twin, cv_tmp2); }
+          del_raw(cv_tmp2);
+        });
+        if (e) { cv_build_failed(how, e); continue; }
+        struct cv_op* o = cv_add(cv_tmp, kind, CR_CONVERTED, c, 1, n, key, val, vf_, cls, how);
+        if (kind == CK_TABLE) {
+          o->twin = ncvo;
+          char how2[64]; snprintf(how2, sizeof how2, "fresh table<%s,%s> := %s (twin of %d)", CFN[kf], CFN[vf_], CKN[sk], ncvo - 1);
+          cv_add(twin, CK_TABLE, CR_TWIN, c, 1, n, key, val, vf_, "table(twin)", how2);
+        }
+      }
+    }
+  }
+}
+
+static uint64_t cv_pairs, cv_defined_pairs, cv_twin_checks;
+
+static void cv_kase(char* buf, size_t cap, int i, int j) {
+  snprintf(buf, cap, "converted %s %s pair %d %d | a=%s b=%s", CFN[cv_fam], cv_part, i, j, cvo[i].desc, cvo[j].desc);
+}
+
+static void cv_pair(int i, int j, int is_map) {
+  struct cv_op* a = &cvo[i]; struct cv_op* b = &cvo[j];
+  char kase[320]; cv_kase(kase, sizeof kase, i, j);
+  vf_set_cur("%s", kase);
+  volatile int c = 0;
+  var e = VF_CATCH(c = cmp(a->c, b->c));
+  vf.executions++; vf.evaluations++; cv_pairs++;
+  CVS[(size_t)i * ncvo + j] = e ? MX_RAISED : (signed char)SIGN(c);
+  if (e) { vf_violation(CVL(a, b, "cmp-raises"), kase, "cmp raised %s", vf_exc_name(e)); return; }
+  int interesting = a->role == CR_CONVERTED || b->role == CR_CONVERTED;
+  if (a->defined && b->defined) {
+    int r = cv_refsign(a, b, is_map);
+    cv_defined_pairs++;
+    if (SIGN(c) != r) {
+      vf_violation(CVL(a, b, r == 0 ? "cmp-nonzero-for-equal" : c == 0 ? "cmp-zero-for-unequal" : "cmp-sign"), kase,
+        "cmp(a,b) = %d, the lexicographic order of the contents gives %d", (int)c, r);
+      return;
+    }
+  }
+  if (interesting || i == j) {
+    volatile bool p_eq = 0, p_neq = 0, p_lt = 0, p_gt = 0, p_le = 0, p_ge = 0; volatile int cr = 0;
+    e = VF_CATCH({ p_eq = eq(a->c, b->c); p_neq = neq(a->c, b->c); p_lt = lt(a->c, b->c); p_gt = gt(a->c, b->c); p_le = le(a->c, b->c); p_ge = ge(a->c, b->c);
+                   if (i == j) cr = cmp(a->c, a->c); });
+    vf.evaluations += 6;
+    if (e) { vf_violation(CVL(a, b, "predicate-raises"), kase, "a predicate raised %s although cmp answered %d", vf_exc_name(e), (int)c); return; }
+    if (p_eq != (c == 0) || p_neq != (c != 0) || p_lt != (c < 0) || p_gt != (c > 0) || p_le != (c <= 0) || p_ge != (c >= 0)) {
+      vf_violation(CVL(a, b, "predicates"), kase, "cmp = %d but eq=%d neq=%d lt=%d gt=%d le=%d ge=%d", (int)c, (int)p_eq, (int)p_neq, (int)p_lt, (int)p_gt, (int)p_le, (int)p_ge);
+      return;
+    }
+    if (i == j && cr != 0) { vf_violation(CVL(a, b, "reflexive"), kase, "cmp(a,a) = %d on the same object", (int)cr); return; }
+  }
+  if (interesting) { vf.nontrivial++; if (vf_want_sample()) vf_sample("%s -> cmp=%d", kase, (int)c); }
+}
+
+/* matrix oracles: antisymmetry among order-defined operands; a converted Table against its twin */
+static void cv_matrix(int only_i, int only_j) {
+  int n = ncvo;
+  for (int i = 0; i < n; i++) for (int j = i + 1; j < n; j++) {
+    if (only_i >= 0 && !((i == only_i && j == only_j) || (i == only_j && j == only_i))) continue;
+    int x = CVS[(size_t)i * n + j], y = CVS[(size_t)j * n + i];
+    if (x == MX_RAISED || y == MX_RAISED || !cvo[i].defined || !cvo[j].defined) continue;
+    vf.evaluations++;
+    if (x != -y) { char kase[320]; cv_kase(kase, sizeof kase, i, j); vf_violation(CVL(&cvo[i], &cvo[j], "antisymmetry"), kase, "sign cmp(a,b) = %d, sign cmp(b,a) = %d", x, y); }
+  }
+  for (int i = 0; i < n; i++) {
+    int t = cvo[i].twin;
+    if (t < 0) continue;
+    for (int j = 0; j < n; j++) {
+      if (only_i >= 0 && !((i == only_i && j == only_j) || (i == only_j && j == only_i))) continue;
+      /* no special cases: the twin is equal to itself, so j == t demands 0, and j == i compares cmp(a,a) with cmp(twin,a) */
+      int x = CVS[(size_t)i * n + j], xt = CVS[(size_t)t * n + j], y = CVS[(size_t)j * n + i], yt = CVS[(size_t)j * n + t];
+      int self_ = j == t || j == i;
+      vf.evaluations += 2; cv_twin_checks += 2;
+      if (x != MX_RAISED && xt != MX_RAISED && x != xt) {
+        char kase[320]; cv_kase(kase, sizeof kase, i, j);
+        vf_violation(CVL(&cvo[i], &cvo[j], self_ ? "not-equal-to-twin" : "differs-from-twin-as-left"), kase, "cmp(converted, b) has sign %d, cmp(fresh table assigned from the same source, b) has sign %d", x, xt);
+      }
+      if (y != MX_RAISED && yt != MX_RAISED && y != yt) {
+        char kase[320]; cv_kase(kase, sizeof kase, j, i);
+        vf_violation(CVL(&cvo[j], &cvo[i], self_ ? "not-equal-to-twin" : "differs-from-twin-as-right"), kase, "cmp(a, converted) has sign %d, cmp(a, fresh table assigned from the same source) has sign %d", y, yt);
+      }
+    }
+  }
+}
+
+static void run_converted(void) {
+  vf.phase = "cmp-assign-converted";
+  D.name = "converted";
+  char fam[16] = "", part[8] = ""; int oi = -1, oj = -1;
+  if (vf.replay && sscanf(vf.replay, "converted %15s %7s pair %d %d", fam, part, &oi, &oj) != 4) return;
+  for (int f = 0; f <= CF_RAW12; f++) for (int v = 0; v < 3; v++) cf_obj[f][v] = cf_new(f, v);
+  cvo = calloc(CV_MAXOPS, sizeof *cvo);
+  CVS = malloc((size_t)CV_MAXOPS * CV_MAXOPS);
+  int nseq[CF_N], nmap[CF_N];
+  for (int f = 0; f < CF_N; f++) for (int is_map = 0; is_map < 2; is_map++) {
+    if (vf.replay && (strcmp(fam, CFN[f]) != 0 || strcmp(part, is_map ? "map" : "seq") != 0)) continue;
+    vf_watchdog(600);
+    vf_set_cur("converted %s %s build", CFN[f], is_map ? "map" : "seq");
+    if (is_map) cv_build_maps(f, vfg_large ? 3 : 2); else cv_build_seqs(f, vfg_large ? 3 : 2);
+    (is_map ? nmap : nseq)[f] = ncvo;
+    memset(CVS, MX_RAISED, (size_t)ncvo * ncvo);
+    for (int i = 0; i < ncvo; i++) for (int j = 0; j < ncvo; j++) {
+      if (vf.replay) {
+        /* the pair itself and, for the twin oracle, the comparisons of the twin of either side */
+        int ti = oi >= 0 && oi < ncvo ? cvo[oi].twin : -1, tj = oj >= 0 && oj < ncvo ? cvo[oj].twin : -1;
+        int need = (i == oi && j == oj) || (i == oj && j == oi) || (ti >= 0 && ((i == ti && j == oj) || (i == oj && j == ti) || (i == ti && j == ti))) || (tj >= 0 && ((i == tj && j == oi) || (i == oi && j == tj) || (i == tj && j == tj)));
+        if (!need) continue;
+      }
+      cv_pair(i, j, is_map);
+    }
+    cv_matrix(vf.replay ? oi : -1, vf.replay ? oj : -1);
+  }
+  if (vf.replay) return;
+  vf_extra("assign_converted", "{\"operands_per_family_sequences\": %d, \"operands_per_family_maps\": %d, \"ordered_pairs\": %" PRIu64 ", \"pairs_judged_against_the_reference_order\": %" PRIu64
+    ", \"twin_agreement_checks\": %" PRIu64 ", \"operands_that_could_not_be_built\": %" PRIu64 "}", nseq[0], nmap[0], cv_pairs, cv_defined_pairs, cv_twin_checks, cv_build_failures);
+}
+
 /* an uncaught Cello exception ends in exit(1): attribute it to the case in progress and keep the results */
 static void on_uncaught_exit(void) {
   char label[96];
@@ -748,7 +1063,7 @@ int main(int argc, char** argv) {
   const char* doms = vf_param("dom", "all");
   if (vf.replay) {
     char dn[16];
-    if (sscanf(vf.replay, "%15s", dn) == 1) { if (!strcmp(dn, "recycled")) run_recycled(); else if (!strcmp(dn, "reptuple")) run_reptuple(); else if (!strcmp(dn, "mixed")) run_mixed(); else run_domain(dn); }
+    if (sscanf(vf.replay, "%15s", dn) == 1) { if (!strcmp(dn, "recycled")) run_recycled(); else if (!strcmp(dn, "reptuple")) run_reptuple(); else if (!strcmp(dn, "mixed")) run_mixed(); else if (!strcmp(dn, "converted")) run_converted(); else run_domain(dn); }
     vf_finish();
   }
   static const char* all[] = { "int", "float", "string", "type", "raw", "raw1", "raw3", "raw4", "raw7", "raw9", "raw12", "raw16", "raw20", "raw21", "raw63", "raw64", "raw65", "raw72", "raw100", "raw127", "raw128", "raw129", "raw200", "raw300" };
@@ -759,6 +1074,7 @@ int main(int argc, char** argv) {
   if (vfg_dom_selected(doms, "recycled")) run_recycled();
   if (vfg_dom_selected(doms, "reptuple")) run_reptuple();
   if (vfg_dom_selected(doms, "mixed")) run_mixed();
+  if (vfg_dom_selected(doms, "converted")) run_converted();
   vf.states = 0;
   vf_finish();
   return 0;
